@@ -95,6 +95,30 @@ Digit(d) == << "0", "1", "2", "3", "4", "5", "6", "7", "8", "9" >>[d + 1]
 CodeText(b) == Digit(b \div 32) \o "." \o Digit((b % 32) \div 10) \o Digit((b % 32) % 10)
 IsErrorCode(b) == b >= 128
 
+\* Header::set_code(text), text as a sequence of character codes: the text is split at every '.', must
+\* give exactly two parts, each an unsigned decimal as Rust's u8::from_str reads it (an optional '+',
+\* at least one digit, nothing else, value <= 255), class <= 7 and detail <= 31.  Anything else is a
+\* violated precondition (the function panics by design; it never stores a made-up code).
+CH_DOT == 46
+CH_PLUS == 43
+IsDigitCh(c) == c >= 48 /\ c <= 57
+RECURSIVE SplitDot(_)
+SplitDot(t) == LET RECURSIVE Upto(_)
+                   Upto(u) == IF u = << >> \/ Head(u) = CH_DOT THEN << >> ELSE << Head(u) >> \o Upto(Tail(u))
+                   first == Upto(t) IN
+               IF Len(first) = Len(t) THEN << first >>
+               ELSE << first >> \o SplitDot(SubSeq(t, Len(first) + 2, Len(t)))
+RECURSIVE DecVal(_, _)
+DecVal(ds, acc) == IF ds = << >> THEN acc ELSE DecVal(Tail(ds), IF acc > 255 THEN 256 ELSE acc * 10 + (Head(ds) - 48))
+ParseU8(t) == LET ds == IF t # << >> /\ Head(t) = CH_PLUS THEN Tail(t) ELSE t IN
+              IF ds = << >> \/ \E i \in 1 .. Len(ds) : ~IsDigitCh(ds[i]) THEN [ok |-> FALSE]
+              ELSE LET v == DecVal(ds, 0) IN IF v > 255 THEN [ok |-> FALSE] ELSE [ok |-> TRUE, v |-> v]
+ParseCodeText(t) ==
+  LET parts == SplitDot(t) IN
+  IF Len(parts) # 2 THEN [ok |-> FALSE]
+  ELSE LET c == ParseU8(parts[1])  d == ParseU8(parts[2]) IN
+       IF c.ok /\ d.ok /\ c.v <= 7 /\ d.v <= 31 THEN [ok |-> TRUE, code |-> c.v * 32 + d.v] ELSE [ok |-> FALSE]
+
 \* well-formedness of the transcription: one name per number, one number per name
 Functional(rows) == \A r, s \in rows : (r[1] = s[1] \/ r[2] = s[2]) => r = s
 RegistryWellFormed ==
